@@ -84,3 +84,18 @@ func (s *StateMachine) VerifSessionCount() (sessions int, responses int) {
 // the session image is written to in getSSMeta (128 KiB by default, zeroed
 // on every snapshot); the buffer grows on demand so behaviour is unchanged.
 func VerifSetSessionBufferCap(n uint64) { sessionBufferInitialCap = n }
+
+// VerifC08AfterSyncHook is a one-shot interleaving point: when armed it runs
+// once, right after StateMachine.sync() (on-disk state machines only) has
+// released s.mu, i.e. at the first moment at which the apply worker - which is
+// kept out by s.mu while the user's Sync() runs - can apply further updates.
+// The call site is added by the generated copy of statemachine.go
+// (gen_sm.py); nothing else in that file is changed.
+var VerifC08AfterSyncHook func()
+
+func verifC08AfterSync() {
+	if f := VerifC08AfterSyncHook; f != nil {
+		VerifC08AfterSyncHook = nil
+		f()
+	}
+}
